@@ -452,6 +452,11 @@ def run_c14(tier, seed, wd, info, verdict):
         rm = tlc("Cluster", make_cfg(c, invariants=["NotBothThreshold"]), wd, name="Cluster_mut")
         require_killed(rm, "Cluster mutant %s" % m, ["NotBothThreshold"])
         info["mutants"].append(dict(mutant=m, killed_by=[rm.violated]))
+    # every N: the TLAPS proof of the shipped configuration's invariant (inductive invariant + counting lemma), not bounded by TLC's N <= 7
+    proved, nobl, tail = tlaps(os.path.join(SPEC, "tlaps", "ClusterProof.tla"), wd)
+    if not proved:
+        raise Inconclusive("TLAPS proof ClusterProof.tla did not check: %s" % tail)
+    info["model_runs"].append(dict(module="tlaps/ClusterProof", theorem="Spec => []NotBothThreshold for all N, T with 2T > N", obligations_proved=nobl))
     nts = [(3, 2), (4, 3)] if tier == "quick" else [(n, t) for n in range(2, 6) for t in range(1, n + 1) if 2 * t > n]
     scs, meta = [], {}
     variants = ["single", "batch1", "batch2"]
